@@ -1417,7 +1417,7 @@ def _cm_lock_edits(safe: bool):
     ]
 T('cache-lock-behind-a-safe-context-manager', ['C01', 'C05', 'C06', 'C14'], *_cm_lock_edits(True))
 B('cache-lock-behind-a-leaky-context-manager', ['C05'], ['C05-R9'], *_cm_lock_edits(False))
-B('cache-store-outside-the-release', ['C06', 'C05'], ['C06-R7', 'C05-R1'],
+B('cache-store-outside-the-release', ['C01'], ['C01-R6'],
   (A, "                except Exception:\n                    raise  # Bubble any errors without caching\n                else:\n                    _cache[key] = result  # Cache for other tasks\n                finally:\n",
       "                finally:\n"),
   (A, "                            del events[key]\n                return result\n", "                            del events[key]\n                _cache[key] = result\n                return result\n"))
@@ -1463,7 +1463,7 @@ def _join_or_claim_edits(check_live: bool):
             "                caching_loop, event, do_caching = _join_or_claim(events, key)\n"),
     ]
 T('cache-claim-in-a-module-helper-returning-a-triple', ['C01', 'C05', 'C06', 'C14'], *_join_or_claim_edits(True))
-B('cache-claim-helper-forgets-stopped-loops', ['C05', 'C01'], ['C05-R7'], *_join_or_claim_edits(False))
+B('cache-claim-helper-forgets-stopped-loops', ['C05'], ['C05-R7'], *_join_or_claim_edits(False))
 T('batcher-sentinel-lookups', ['C04', 'C09', 'C11', 'C15'],
   (A, "_DONE = object()\n", "_DONE = object()\n_MISSING: Any = object()\n"),
   (A, "        try:\n            fut = self._retention_cache[key]\n        except KeyError:\n            pass\n        else:\n            return await fut\n",
